@@ -42,8 +42,12 @@ def load(path: Path, *, cache: bool = False) -> Any:
 def dump(obj: Any, path: Path) -> None:
     """Dump an object to a path using cloudpickle."""
     path.parent.mkdir(parents=True, exist_ok=True)
-    with path.open("wb") as f:
+    # Write to a temporary file and atomically replace the target, such that
+    # an interrupted write never leaves a partially written file behind.
+    tmp_path = path.with_name(f"{path.name}.tmp")
+    with tmp_path.open("wb") as f:
         cloudpickle.dump(obj, f)
+    tmp_path.replace(path)
 
 
 def _get_cache_key(path: Path) -> tuple:
